@@ -532,9 +532,35 @@ def import_cases():
     return out
 
 
+# values with white space runs INSIDE tokens (strings, quoted urls), alone and nested in blocks and
+# functions: for every place where the minifier handles a value as raw bytes (custom properties,
+# unknown at-rules and their blocks, declarations it passes through, raw runs)
+STRWS = ['"a  b"', "'x\t y'", '"a\\\n  b"', '"  lead"', "'trail  '", '"a\t\tb"', 'url("a  b")', "url( 'a  b' )", '("a  b")', 'f("a  b" , 1)',
+         '[ "a  b" ]', '{ "a  b" }', 'g( h( \'p   q\' ) )', '"a  b" \'c   d\'', '"it\'s   x"', '"\\"  q"']
+
+
+def rawbyte_cases():
+    inline, sheets = [], []
+    for v in STRWS:
+        inline += ['--x:%s' % v, '--x: %s ;--y:1' % v, '--Long-Name:0px  %s  0px' % v, 'content:%s' % v, 'x:%s' % v, 'x:(%s)' % v, 'x: a %s b' % v,
+                   'quotes:%s %s' % (v, v), '*zoom:%s' % v, 'color red %s' % v, 'grid-template-areas:%s' % v, 'filter:progid:X.Y(a=%s)' % v,
+                   'background:url(x) %s' % v, 'font-family:%s' % v]
+        sheets += ['@foo %s;' % v, '@foo %s{a:b}' % v, '@foo{ a: %s ; b{ c:%s } }' % (v, v), '@layer L{ a{content:%s} }' % v, '@media screen{a{--x:%s}}' % v,
+                   '@font-face{font-family:F;src:local(%s)}' % v, '@supports (content:%s){a{x:y}}' % v, '@charset %s;' % v, 'a{b:c;%s}' % v]
+        if v[0] in '"\'' and ' ' not in v.strip('"\'').strip() or True:
+            if v[0] in '"\'' and v.count(v[0]) == 2:
+                sheets.append('[a=%s]{x:y}' % v)
+                sheets.append('a[title~=%s i] , b{x:y}' % v)
+    return inline, sheets
+
+
 def struct_cases(ctx):
     out = []
-    texts = list(RULES) + list(AT_SIMPLE) + list(AT_DECL) + import_cases()
+    inl, sh = rawbyte_cases()
+    for t in inl:
+        out.append(mk(t, True, False, 'struct:rawbytes'))
+        out.append(mk('a{' + t + '}', False, ctx.rnd.random() < 0.5, 'struct:rawbytes'))
+    texts = list(RULES) + list(AT_SIMPLE) + list(AT_DECL) + import_cases() + sh
     for a, b in AT_BLOCKS:
         texts.append(a + b)
         for r in (RULES if not ctx.quick() else ctx.rnd.sample(RULES, 6)):
